@@ -315,3 +315,25 @@ reg('C27', engine='llsym',
     note='Trusted: clang IR, llsym, contracts for PyDict_*/PyWeakref_* (3.13 API level). The Python-level model.global_cache '
          'memo is outside; primitive keys are table-row addresses (C06).',
     technique='symbolic execution of LLVM IR from an arbitrary invariant-satisfying cache state (inductive step) + two-run key injectivity, SMT (z3)')
+
+reg('C07', engine='llsym',
+    text='Token-level differential of the two type-string parsers: the real C parser (parse_c_type/parse_complete/parse_sequel) is '
+         'executed symbolically over *every token sequence* of three bounded families (specifier orderings; pointers/arrays/parentheses; '
+         'function types with void/ellipsis/const) -- token kinds are solver variables, the accepted sequences and their opcodes fall out of '
+         'the accepting paths -- and compared with the real cparser.Parser.parse_type evaluated on every sequence of the same families; '
+         'parse-level disagreements are re-run through both FFIs on the real build and only real differences are reported. The real '
+         'lexer\'s keyword table is decided on symbolic identifier bytes.',
+    note='Trusted: clang IR, llsym, lexer/peek stubs (stated), the opcode -> type-tree decoder mirroring realize_c_type. The Python '
+         'parser is evaluated exhaustively within the same bounds, not symbolically (pycparser LALR tables).',
+    technique='symbolic execution of LLVM IR over symbolic token sequences (SMT, z3) vs exhaustive bounded evaluation of the Python parser; residual disagreements replayed on the real build')
+
+reg('C31', engine='pysym',
+    text='Proxy symbolic execution of the real cparser._preprocess (with _remove_line_directives, _put_back_line_directives, '
+         '_preprocess_extern_python, _warn_for_string_literal) on symbolic source text: at every token gap of four base cdefs a '
+         'separator is inserted whose characters are solver variables (blanks, /* */ and // comments with arbitrary bodies, '
+         'backslash-newline inside #define, # N "file" directives); the module\'s compiled regexes are simulated as Thompson NFAs '
+         'over the symbolic characters (finditer/sub included); the preprocessed text must have the same tokens and macros as '
+         'for the base, for every separator content.',
+    note='Trusted: the SymRegex translation (validated against re on concrete mutated sources every run), SymStr model of str '
+         'methods, lifted string constants. pycparser and everything after _preprocess see identical token streams.',
+    technique='proxy symbolic execution of Python source with symbolic strings and NFA-simulated regexes, SMT (z3)')
